@@ -97,6 +97,7 @@ def run(chk):
     from . import rules_C04, report
 
     report.include_rules(chk, r3, rules_C04, ("C04.R4",), "key_prefix is applied to every key and to nothing that is not a key")
+    report.include_rules(chk, r3, rules_C04, ("C04.R1",), "the command line carries what the caller gave: the length of the block that is sent, the flags that were passed (0 included)")
     # an illegal key is refused before any part of the request is on the wire, for an illegal key anywhere in a batch
     # and whatever ignore_exc (decided end to end, C20.R6)
     from . import rules_C20
